@@ -3,6 +3,8 @@ CONSTANTS
   MaxTx = 3
   MaxCores = 2
   MinBatch = 2
+  ItemCap = 2
+  BlockingAdd = TRUE
   FlushRemainder = TRUE
 INVARIANTS VerdictCorrect EverySigChecked NoSendAfterClose
 PROPERTIES Terminates
